@@ -6,6 +6,7 @@ CONSTANTS
   Offsets = {0, 1, 2, 3}
   BlockSize = 2
   Known = @KNOWN@
+  History = FALSE
   Guard = @GUARD@
   Schema <- SchemaIntStr
   IdxDefs <- IdxIntStr
@@ -22,6 +23,8 @@ CONSTANTS
   AllowInsert = TRUE
   Keyed = FALSE
   LateInitSel = FALSE
+  Snap = "none"
+  Rst = "none"
   Rep = "rep"
   ReplayAtEnd = TRUE
 INVARIANTS FillAccounting ReadBack IndexCoherent SortCoherent KeyCoherent NoCollision OccupiedIsLive NoStaleValues StreamIds
